@@ -103,4 +103,4 @@ if "consumers" in req:
                 row[p] = {"error": type(e).__name__ + ": " + str(e)[:200]}
         rows.append(row)
     out["consumers"] = rows
-print(json.dumps(out))
+print(json.dumps(out, default=__import__("_util").jdefault))
